@@ -1070,7 +1070,15 @@ func getFiles(directory string) ([]string, error) {
 	var files []string
 	err := filepath.Walk(directory, func(path string, info os.FileInfo, err error) error {
 		if err != nil {
-			return err
+			if path == directory {
+				return err
+			}
+			// an unreadable entry below the root must not hide the rest of the project
+			Log("Skipping unreadable path:", path, err)
+			if info != nil && info.IsDir() {
+				return filepath.SkipDir
+			}
+			return nil
 		}
 		if !info.IsDir() {
 			// append only java files
